@@ -49,6 +49,8 @@ call panics. Reasons:
   msgpack-roundtrip   `read_from_msg_pack` of the written bytes is not `x`
   paths-accept        one of `parse_recognize::<T>` / `parse_recognize::<Value>`+`try_from_value` accepts, the other not
   paths-value         both accept with different results
+  reset-not-fresh     documents read one after the other by ONE decoder / recogniser instance (reset in between)
+                      do not give what fresh reads of the same texts give
   panic
 -/
 structure Mon where
@@ -77,6 +79,11 @@ def Mon.step (m : Mon) (line : String) (out : String) : Mon × Option String :=
       if a == b then (m, none)
       else if a.startsWith "ok" && b.startsWith "ok" then (m, some "paths-value")
       else (m, some "paths-accept")
+    | _ => (m, some "unparsable")
+  | ["seq", _, _] =>
+    -- `R=` results of one decoder instance reading the documents in sequence, `F=` fresh reads of the same texts
+    match words out with
+    | [a, b] => (m, if (a.drop 2).toString == (b.drop 2).toString then none else some "reset-not-fresh")
     | _ => (m, some "unparsable")
   | ["mp", _, i] =>
     if out.startsWith "err" then (m, some "msgpack-write") else ({ m with mp := (out, i) :: m.mp }, none)
